@@ -323,6 +323,8 @@ func runC13(c *Ctx) {
 		}
 	}
 
+	runVerifyChain(c, "R4-readiness")
+
 	// ---- R5 ---------------------------------------------------------------------------------
 	rule = "R5-decrypt-bounds"
 	decryptM := c.Method(rule, "pkg/encryption.Cipher.Decrypt")
@@ -523,5 +525,63 @@ func runSingleResponse(c *Ctx, rule string) {
 		if !flagged {
 			c.R.OK(rule, "single-answer|"+fnKey(fn), c.P.Pos(fn.Pos()), sprintf("no answer follows an error answer on any path (at most %d answering calls per path)", worst))
 		}
+	}
+}
+
+// runVerifyChain: every VerifyConnection of a store that has a connection answers nil only as the
+// nil result of probing the next layer on that very call (Manager -> Store -> Client.Ping); a cached or
+// coalesced answer predates an outage. The cookie store, which has no connection, is the reviewed constant.
+func runVerifyChain(c *Ctx, rule string) {
+	pingM := c.Method(rule, "pkg/sessions/redis.Client.Ping")
+	n := 0
+	for _, fn := range c.P.ModFns {
+		if fn.Name() != "VerifyConnection" || fn.Signature.Recv() == nil || len(fn.Blocks) == 0 {
+			continue
+		}
+		pk := prog.Short(prog.FnPkg(fn).Path())
+		if pk == "pkg/sessions/cookie" {
+			c.R.OK(rule, "probe|"+fnKey(fn), c.P.Pos(fn.Pos()), "reviewed: the cookie store has no connection to verify")
+			continue
+		}
+		if !strings.HasPrefix(pk, "pkg/sessions") {
+			continue
+		}
+		n++
+		fn := fn
+		c.Walk(rule, fn, func(p *walk.Path) {
+			rv, ok := p.ReturnDV(0)
+			if !ok {
+				return
+			}
+			at := p.End()
+			key := "probe|" + fnKey(fn)
+			if definitelyNonNil(p, rv, at) {
+				c.ok(rule, key+"|error", p.Exit, "a constructed error")
+				return
+			}
+			// anything that may be nil must be this call's own probe result
+			fromProbe := false
+			for _, cl := range p.Calls() {
+				if !cl.C.IsInvoke() {
+					continue
+				}
+				if cl.C.Method.Name() == "VerifyConnection" || (pingM != nil && walk.SameMethod(cl.C.Method, pingM)) || cl.C.Method.Name() == "Ping" {
+					if p.Key(rv) == p.ResultKey(cl.DV(), -1) {
+						fromProbe = true
+					}
+					if nn, k := p.ResultNil(cl.DV(), -1, at); k && nn && DefinitelyNil(p, rv, at) {
+						fromProbe = true
+					}
+				}
+			}
+			if fromProbe {
+				c.ok(rule, key, p.Exit, "returns the result of probing the next layer during this call")
+			} else {
+				c.bad(rule, key, p.Exit, "VerifyConnection can answer with something other than the result of a probe made during this call (a cached or coalesced result predates an outage): readiness stays 200 while the store is unreachable", p, at)
+			}
+		})
+	}
+	if n == 0 {
+		c.R.Unknown(rule, "probe|none", "-", "no VerifyConnection implementation with a connection found")
 	}
 }
